@@ -252,8 +252,28 @@ func genC02Value(t *rapid.T) m.Packet {
 	return p
 }
 
+// c02MaxSizeValues: well-formed values whose encoding is exactly the largest packet the
+// 16-bit length field can describe (65536 words).
+func c02MaxSizeValues() []m.Packet {
+	unknown := m.XRBlock{BT: 99, TypeSpecific: 1, Body: make([]byte, 262144-8-4)}
+	return []m.Packet{
+		{Kind: m.KSR, SR: &m.SR{SSRC: 1, Ext: make([]byte, 262144-28)}},
+		{Kind: m.KRR, RR: &m.RR{SSRC: 1, Ext: make([]byte, 262144-8)}},
+		{Kind: m.KXR, XR: &m.XR{Sender: 1, Blocks: []m.XRBlock{unknown}}},
+		{Kind: m.KRAW, RAW: append([]byte{0x80, 192, 0xFF, 0xFF}, make([]byte, 262140)...)},
+	}
+}
+
 func TestC02(t *testing.T) {
 	defer harness.Uncaught(t)
+	if harness.Cfg.Shard == 0 {
+		for _, p := range c02MaxSizeValues() {
+			subC02One.Check(t, valCase{P: p})
+			harness.Eval(subC02One.Name+"/max-size", 1)
+			harness.Class("max-size:"+string(p.Kind), 1)
+			harness.NonTrivialDistinct(1)
+		}
+	}
 	harness.RapidCheck(t, harness.Scale(5000, 40000), 2, func(rt *rapid.T) {
 		c := valCase{P: genC02Value(rt)}
 		harness.Record(subC02One.Name, c, valueNonTrivial(c.P), classesOf(c.P)...)
